@@ -5,9 +5,9 @@ import TensorModel.Ext.Reduce
   (`SetMaskAt`, `SetMaskAtIndex`, `ResetMask`, `MaskFromSlice`, `MaskFromDense`, the constructor
   option `WithMask`) and the arg-reductions / reductions of *masked* tensors.
 
-  M mirrors `dense_matop.go:SetMaskAt/SetMaskAtIndex`, `dense.go:ResetMask/MaskFromSlice/MaskFromDense/
+  M mirrors `dense_matop.go:SetMaskAt/SetMaskAtIndex` (validate, then make the mask on demand), `dense.go:ResetMask/MaskFromSlice/MaskFromDense/
   makeMask/fix`, `consopt.go:WithMask`, `tensor.go:New`, the masked branches of
-  `defaultengine_argmethods.go:arg{max,min}DenseTensor`, `internal/execution/eng_argmethods.go:
+  `defaultengine_argmethods.go:arg{max,min}DenseTensor` (with `flatArgNeedsIterator`), `internal/execution/eng_argmethods.go:
   Arg{max,min}IterMasked / Arg{max,min}FlatMasked` and the kernels `Arg{max,min}Masked<T>` of
   `generic_argmethods.go`. Sum/Max/Min of masked tensors go through `Red.engReduce` unchanged (the
   engine has no masked branch: a masked operand "requires an iterator" and is refused by `prepReduce`;
@@ -87,18 +87,20 @@ def stopK (isMax isFloat : Bool) (v : Red.Key) : Bool :=
 def argMaskedK (isMax isFloat : Bool) (ks : List Red.Key) (mask : List Bool) : Nat :=
   argMaskedGo (betterK isMax) (stopK isMax isFloat) 0 none (ks.zip mask)
 
-/-- `E.Arg{max,min}IterMasked(typ, data, mask, it, lastSize)`: every run of `lastSize` elements in iterator
-    order is handed to the kernel **together with the whole raw mask** (`ArgmaxMasked<T>(tmp, mask)`; the lane's
-    own bits were collected in `newMask`, which is never used): lane `k` is judged by `mask[0 .. lastSize)`. -/
-def argIterMasked (isMax isFloat : Bool) (lastSize : Nat) (cells : List Red.Key) (rawMask : List Bool) : List Nat :=
-  (Red.argChunks lastSize cells).map (fun lane => argMaskedK isMax isFloat lane rawMask)
-
 /-- consecutive runs of `n` entries (`Red.argChunks` for any element type) -/
 def laneChunks {β} (n : Nat) (l : List β) : List (List β) := Red.chunks n (l.length / n) l
 
-/-- what the call site means: every lane with its own mask bits -/
-def argIterMaskedIntended (isMax isFloat : Bool) (lastSize : Nat) (cells : List Red.Key) (laneMask : List Bool) : List Nat :=
+/-- `E.Arg{max,min}IterMasked(typ, data, mask, it, lastSize)`: every run of `lastSize` elements in iterator
+    order is handed to the kernel together with the mask bits collected along the same run
+    (`newMask = append(newMask, mask[next])`, `Arg{max,min}Masked<T>(tmp, newMask)`): `cells` and `laneMask` are the
+    data and the mask bits in iterator order, lane `k` is judged by its own bits. -/
+def argIterMasked (isMax isFloat : Bool) (lastSize : Nat) (cells : List Red.Key) (laneMask : List Bool) : List Nat :=
   List.zipWith (argMaskedK isMax isFloat) (Red.argChunks lastSize cells) (laneChunks lastSize laneMask)
+
+/-- `flatArgNeedsIterator(t)`: the raw window of a masked tensor, left to right, is not known to be the row-major
+    listing of its elements — `RequiresIterator` without the clause for masks, or column-major -/
+def flatMaskedViaIter (t : Dense) : Bool :=
+  t.ap.o.col || (t.win.len != 1 && (t.ap.o.nonContig || t.old.isSome))
 
 /-- `StdEng.arg{max,min}DenseTensor(t, axis)`, masked branches; everything else is `Red.engArg`. -/
 def engArgMasked (st : St) (isMax : Bool) (vs : Nat) (t : Dense) (axis : Int) : Res Red.ArgRes := do
@@ -110,6 +112,19 @@ def engArgMasked (st : St) (isMax : Bool) (vs : Nat) (t : Dense) (axis : Int) : 
     if axis ≥ t.dims then throwErr "dimMismatch"
     let fl := Red.isFloatDt t.dt
     if axis == -1 then
+      if flatMaskedViaIter t then
+        -- `E.Arg{max,min}IterMasked(typ, dataA, mt.Mask(), IteratorFromDense(t), TotalSize)`: one run of all the
+        -- elements and their mask bits, in iterator order
+        let offs := t.offsets
+        let cells ← offs.mapM (fun i => st.get t.win i)
+        let laneBits ← offs.mapM (fun i => st.mget m i)
+        match cells.mapM (Red.knownKey vs t.dt) with
+        | none => return .unknown
+        | some ks =>
+          let i := (argIterMasked isMax fl (totalSize t.shape).toNat ks laneBits).headD 0
+          let (st, r) := Dense.fresh st "i" [] false #[Val.lit s!"k{i}:i"]
+          return .ok st r
+      else
       -- `e.E.Arg{max,min}FlatMasked(typ, dataA, mt.Mask())`: raw window and raw mask, left to right
       let cells ← t.rawCells st
       let bits ← maskBits st m
@@ -133,42 +148,45 @@ def engArgMasked (st : St) (isMax : Bool) (vs : Nat) (t : Dense) (axis : Int) : 
       let newShape := newAP.shape.dropLast
       let cells ← offs.mapM (fun i => st.get t.win i)
       -- `newMask = append(newMask, mask[next])`
-      let _ ← offs.mapM (fun i => st.mget m i)
-      let bits ← maskBits st m
+      let laneBits ← offs.mapM (fun i => st.mget m i)
       if lastSize ≤ 0 then throwPanic "unmodelled: empty axis" else
-      if bits.length < lastSize.toNat then throwPanic "mask[i]: index out of range" else
       match cells.mapM (Red.knownKey vs t.dt) with
       | none => return .unknown
       | some ks =>
-        let idxs := argIterMasked isMax fl lastSize.toNat ks bits
+        let idxs := argIterMasked isMax fl lastSize.toNat ks laneBits
         let vals := idxs.map (fun i => Val.lit s!"k{i}:i")
         let (st, r) ← Dense.newRow st "i" newShape vals.toArray
         return .ok st r
 
 /-! ## the setters -/
 
-/-- `SetMaskAtIndex(v, i)` -/
-def setMaskAtIndex (s : St) (t : Dense) (v : Bool) (i : Int) : Res St :=
-  if !t.isMasked then pure s else
+/-- the store both setters end with: `if !t.IsMasked() { if !v { return nil }; t.makeMask() }; t.mask[i] = v` — a tensor
+    without mask is given one when a bit is to be set; clearing a bit of a tensor without mask changes nothing -/
+def storeMaskBit (s : St) (t : Dense) (v : Bool) (i : Int) : Res (St × Dense) := do
+  if !t.isMasked && !v then return (s, t)
+  let (s, t) ← (if !t.isMasked then makeMask s t else pure (s, t) : Res (St × Dense))
   match t.mask with
-  | some m => s.mset m i v            -- `t.mask[i] = v`: index panic outside the mask window
-  | none => pure s
+  | some m => do pure (← s.mset m i v, t)  -- `t.mask[i] = v`
+  | none => pure (s, t)
 
-/-- `SetMaskAt(v, coords...)` -/
-def setMaskAt (s : St) (t : Dense) (v : Bool) (c : List Int) : Res St := do
-  if !t.isMasked then return s
+/-- `SetMaskAtIndex(v, i)`: the index is checked against the data window first (an error, masked or not) -/
+def setMaskAtIndex (s : St) (t : Dense) (v : Bool) (i : Int) : Res (St × Dense) :=
+  if i < 0 || i ≥ (t.win.len : Int) then throwErr "SetMaskAtIndex: index out of range" else
+  storeMaskBit s t v i
+
+/-- `SetMaskAt(v, coords...)`: arity and range are checked like those of `At`, masked or not -/
+def setMaskAt (s : St) (t : Dense) (v : Bool) (c : List Int) : Res (St × Dense) := do
   if c.length != t.dims then throwErr "dimMismatch"
   let i ← ltoi t.shape t.strides c
-  match t.mask with
-  | some m => s.mset m i v
-  | none => pure s
+  storeMaskBit s t v i
 
-/-- `ResetMask(val...)`: `if !t.IsMasked() { t.makeMask() }; memsetBools(t.mask, fillValue)` — the whole
-    mask *window* is filled -/
+/-- `ResetMask(val...)`: `if !t.IsMasked() { t.makeMask() }`, then the fill: the bits of the tensor's own elements for a
+    view or a pending transpose (walk of `newFlatIterator(&t.AP)`), `memsetBools(t.mask, fillValue)` otherwise
+    (`Dense.resetMaskBits`, shared with `Zero()`) -/
 def resetMask (s : St) (t : Dense) (val : Option Bool) : Res (St × Dense) := do
   let (s, t) ← (if !t.isMasked then makeMask s t else pure (s, t) : Res (St × Dense))
   match t.mask with
-  | some m => do pure (← memsetMask s m (val.getD false), t)
+  | some m => do pure (← t.resetMaskBits s m (val.getD false), t)
   | none => pure (s, t)
 
 /-- the argument of `MaskFromSlice` / `WithMask` as the type switch sees it -/
@@ -199,9 +217,6 @@ def maskFromSlice (s : St) (t : Dense) (x : MaskSrc) : Res (St × Dense) := do
   | .nums nz => do pure (← numLoop s m m.len 0 nz, t)
   | .other => pure (s, t)
 
-/-- `DataSize()` -/
-def dataSize (t : Dense) : Nat := if isScalar t.shape then 0 else t.win.len
-
 /-- one operand of `MaskFromDense`: `for j := range t.mask { t.mask[j] = t.mask[j] || tt.mask[j%n] }`
     (sequential on the state: `tt` may be `t` itself or share its mask buffer) -/
 def orInto (s : St) (tm ttm : Win) : Res St :=
@@ -217,7 +232,8 @@ def maskFromDense (s : St) (objs : Array Dense) (self : Nat) (t : Dense) (tts : 
   let has := tts.map (fun o => match o.bind (get t) with | some d => d.isMasked | none => false)
   if !has.any id then return (s, t)
   let mlen := match t.mask with | some m => m.len | none => 0
-  let (s, t) ← (if mlen < dataSize t then makeMask s t else pure (s, t) : Res (St × Dense))
+  -- `if len(t.mask) < t.len() { t.makeMask() }`
+  let (s, t) ← (if mlen < t.win.len then makeMask s t else pure (s, t) : Res (St × Dense))
   match t.mask with
   | none => pure (s, t)
   | some tm =>
@@ -238,15 +254,17 @@ structure ConsSt where
 deriving Inhabited
 
 /-- one construction option: `S` = `WithShape(dims…)`, `B` = `WithBacking(backing)`, `M` = `WithMask(x)` -/
-def consOpt (dt : String) (dims : Shape) (x : Option MaskSrc) (s : St) (c : ConsSt) (o : Char) : Res (St × ConsSt) :=
+def consOpt (dt : String) (dims : Shape) (n : Nat) (x : Option MaskSrc) (s : St) (c : ConsSt) (o : Char) : Res (St × ConsSt) :=
   if o == 'S' then pure (s, { c with shape := some dims })
   else if o == 'B' then pure (s, { c with hasData := true })
   else if o == 'M' then
     match x with
     | none => pure (s, c)                                  -- `if x == nil { return }`
     | some x => do
-      -- `tt.MaskFromSlice(x)` on the half-built tensor: `makeMask` sizes by `t.shape.TotalSize()` (nil shape: 1)
-      let tmp : Dense := { ap := { shape := c.shape.getD [], strides := [], fin := false }, win := ⟨0, 0, 0, 0⟩, dt := dt, mask := c.mask }
+      -- `tt.MaskFromSlice(x)` on the half-built tensor: `makeMask` sizes by the backing once `WithBacking` has run
+      -- (`n` cells), by `t.shape.TotalSize()` before (nil shape: 1)
+      let tmp : Dense := { ap := { shape := c.shape.getD [], strides := [], fin := false },
+                           win := ⟨0, 0, if c.hasData then n else 0, 0⟩, dt := dt, mask := c.mask }
       let (s, tmp) ← maskFromSlice s tmp x
       pure (s, { c with mask := tmp.mask })
   else throwPanic "unknown option"
@@ -265,7 +283,7 @@ def consFix (c : ConsSt) (n : Nat) : Shape × Nat × Option Win :=
     `n` = number of cells of the backing; `Of(dt)` is given first when there is no backing. -/
 def consNew (s : St) (dt : String) (dims : Shape) (n : Nat) (cells : Array Val) (opts : List Char) (x : Option MaskSrc) :
     Res (St × Dense) := do
-  let (s, c) ← opts.foldlM (fun (acc : St × ConsSt) o => consOpt dt dims x acc.1 acc.2 o) (s, {})
+  let (s, c) ← opts.foldlM (fun (acc : St × ConsSt) o => consOpt dt dims n x acc.1 acc.2 o) (s, {})
   let (shape, len, mask) := consFix c n
   let data : Array Val := if c.hasData then cells else Array.replicate len Val.zero
   -- sanity()
@@ -378,12 +396,12 @@ def stepM (ps : PState) (_ : Nat) (toks : List String) : PState × StepOut :=
     | _, _ => (ps.failVar, .fields "r=skip")
   | ["msetat", a, v, coords] =>
     match ps.obj a, parseBit v, parseIntList coords with
-    | some (id, t), some v, some c => mutLine ps id ((setMaskAt ps.st t v c).map (fun st => (st, t)))
+    | some (id, t), some v, some c => mutLine ps id (setMaskAt ps.st t v c)
     | none, _, _ => (ps, .fields "r=skip")
     | _, _, _ => (ps, .fields "r=badprog")
   | ["mseti", a, v, i] =>
     match ps.obj a, parseBit v, i.toInt? with
-    | some (id, t), some v, some i => mutLine ps id ((setMaskAtIndex ps.st t v i).map (fun st => (st, t)))
+    | some (id, t), some v, some i => mutLine ps id (setMaskAtIndex ps.st t v i)
     | none, _, _ => (ps, .fields "r=skip")
     | _, _, _ => (ps, .fields "r=badprog")
   | ["mreset", a, v] =>
@@ -621,51 +639,16 @@ def stepS (psBefore psAfter : PState) (ss : SState) (_ : Nat) (toks : List Strin
 
 /-! ## known-defect regions (see findings.d/maskops.json) -/
 
-/-- F110: `Arg{max,min}IterMasked` hands the kernel the whole raw mask instead of the lane's bits: every lane
-    is judged by the first `lastSize` entries of the raw mask. Region: a per-axis arg-reduction of a masked tensor
-    in which some lane's own bits differ from that prefix. -/
-def Excl_argLaneMask (st : St) (t : Dense) (axis : Int) : Bool :=
-  t.isMasked && axis != -1 &&
-  (match t.mask, Red.argAxes t.dims axis with
-   | some m, some axes =>
-     match t.ap.T axes with
-     | .ok r =>
-       let newAP := match r with | .noop _ _ => t.ap | .ok ap _ => ap
-       let offs := Red.loadedOffsets t newAP
-       let last := (newAP.shape.getLast?.getD 0).toNat
-       match offs.mapM (fun i => st.mget m i), maskBits st m with
-       | .ok laneBits, .ok raw => (laneChunks last laneBits).any (fun l => l != raw.take last)
-       | _, _ => false
-     | .error _ => false
-   | _, _ => false)
-
-/-- F111: flat `Argmax/Argmin` of a masked tensor run the kernel over the raw window and the raw mask: the index
-    returned is a storage index. Region: the raw window, left to right, is not the row-major listing of the elements. -/
-def Excl_argFlatRaw (t : Dense) : Bool := t.isMasked && t.offsets != rangeI t.win.len
-
-/-- F112: `SetMaskAt` / `SetMaskAtIndex` on a tensor without mask return nil before looking at their arguments:
-    a bit that was to be set is not set, a malformed position is not refused. -/
-def Excl_setterNoMask (t : Dense) (v : Bool) (malformed : Bool) : Bool := !t.isMasked && (v || malformed)
-
-/-- F113: `ResetMask` fills the mask *window* (a view with gaps: also bits of parent cells that are not its
-    elements) and sizes a new mask by the shape while `IsMasked` compares with the window (a view with gaps of an
-    unmasked tensor stays unmasked). Region: storage window longer than the size. -/
-def Excl_resetWindow (t : Dense) : Bool := (t.win.len : Int) != totalSize t.shape
-
-/-- F115: `WithMask` runs `MaskFromSlice` on the half-built tensor: when no `WithShape` precedes it the mask is
-    sized for a scalar, filled (a non-bool mask panics on a non-zero second entry) and dropped by `fix()`. -/
+/-- F115: `WithMask` runs `MaskFromSlice` on the half-built tensor: when neither `WithShape` nor `WithBacking` precedes
+    it the mask is sized for a scalar, filled (a non-bool mask panics on a non-zero second entry) and dropped by `fix()`.
+    (After `WithBacking` the mask is sized by the backing since `makeMask` looks at the data.) -/
 def Excl_withMaskNoShape (opts : List Char) (n : Nat) : Bool :=
-  opts.contains 'M' && !(opts.takeWhile (· != 'M')).contains 'S' && n != 1
+  opts.contains 'M' && !(opts.takeWhile (· != 'M')).contains 'S' && !(opts.takeWhile (· != 'M')).contains 'B' && n != 1
 
 /-- F116: `MaskFromDense` combines the masks by *storage index* (`t.mask[j] || tt.mask[j%n]`). Region: the receiver
     or a masked operand is not stored in its logical order (lazily transposed, view with gaps). -/
 def Excl_fromDenseStorage (t : Dense) (tts : List Dense) : Bool :=
   (t :: tts.filter (·.isMasked)).any (fun d => d.offsets != rangeI d.win.len)
-
-/-- F117: `MaskFromDense` on a scalar receiver without mask: `DataSize()` is 0 for scalars, no mask is made and
-    the loop over `t.mask` is empty. -/
-def Excl_fromDenseScalar (t : Dense) (tts : List Dense) : Bool :=
-  isScalar t.shape && !t.isMasked && tts.any (·.isMasked)
 
 def excl (ps : PState) (toks : List String) : List String × Bool :=
   let tag (b : Bool) (s : String) : List String := if b then [s] else []
@@ -673,10 +656,10 @@ def excl (ps : PState) (toks : List String) : List String × Bool :=
   | "marg" :: _ :: _ :: a :: axis :: _ =>
     match ps.obj a, Red.parseAxis axis with
     | some (_, t), some ax =>
-      if ax == -1 then (tag (Excl_argFlatRaw t) "F111", false)
+      if ax == -1 then ([], false)
       else
         let f28 := match Red.argAxes t.dims ax with | some axes => Excl_vectorT t axes | none => false
-        (tag (Excl_argLaneMask ps.st t ax) "F110" ++ tag f28 "F28" ++ tag (Excl_shortStrides t) "F24", false)
+        (tag f28 "F28" ++ tag (Excl_shortStrides t) "F24", false)
     | _, _ => ([], false)
   | "mred" :: opn :: _ :: a :: axes :: _ =>
     match ps.obj a, parseIntList axes, Red.opOf opn with
@@ -687,17 +670,15 @@ def excl (ps : PState) (toks : List String) : List String × Bool :=
     | _, _, _ => ([], false)
   | ["msetat", a, v, coords] =>
     match ps.obj a, parseBit v, parseIntList coords with
-    | some (_, t), some v, some c =>
-      let malformed := c.length != t.dims || !inBox t.shape c
-      (tag (Excl_setterNoMask t v malformed) "F112" ++ tag (Excl_shortStrides t) "F24", true)
+    | some (_, t), some _, some _ => (tag (Excl_shortStrides t) "F24", true)
     | _, _, _ => ([], false)
   | ["mseti", a, v, i] =>
     match ps.obj a, parseBit v, i.toInt? with
-    | some (_, t), some v, some i => (tag (Excl_setterNoMask t v (i < 0 || i ≥ t.win.len)) "F112", true)
+    | some _, some _, some _ => ([], true)
     | _, _, _ => ([], false)
   | ["mreset", a, _] =>
     match ps.obj a with
-    | some (_, t) => (tag (Excl_resetWindow t) "F113", true)
+    | some _ => ([], true)
     | none => ([], false)
   | ["mfromslice", a, _, _] =>
     match ps.obj a with
@@ -707,7 +688,7 @@ def excl (ps : PState) (toks : List String) : List String × Bool :=
     match ps.obj a with
     | some (_, t) =>
       let tts := argToks.filterMap (fun tok => (ps.obj tok).map (·.2))
-      (tag (Excl_fromDenseStorage t tts) "F116" ++ tag (Excl_fromDenseScalar t tts) "F117", true)
+      (tag (Excl_fromDenseStorage t tts) "F116", true)
     | none => ([], false)
   | ["mcons", _, shape, opts, _, _] =>
     match parseIntList shape with
